@@ -80,7 +80,7 @@ def _apply_nesting_config_override(
 
 def _apply_nesting_to_languages(nesting_config: dict, max_depth: int) -> None:
     """Apply max_depth to language-specific configs."""
-    for lang in ["python", "typescript", "javascript"]:
+    for lang in ["python", "typescript", "javascript", "rust"]:
         with suppress(KeyError):
             nesting_config[lang]["max_nesting_depth"] = max_depth
 
